@@ -49,6 +49,37 @@ func (c *FnCtx) anchorAsserts(key string, bind func(env *Env)) {
 	}
 }
 
+// afterCallAnchor handles "assert at after call X#k" and "assume at after call X#k" clauses:
+// result0.. are the call's results, arg0.. its arguments.
+func (c *FnCtx) afterCallAnchor(key string, args, results []Val) {
+	if c.fc == nil || c.discover {
+		return
+	}
+	bind := func(env *Env) {
+		for i, a := range args {
+			env.names[fmt.Sprintf("arg%d", i)] = a
+		}
+		for i, r := range results {
+			env.names[fmt.Sprintf("result%d", i)] = r
+			if len(results) == 1 {
+				env.names["result"] = r
+			}
+		}
+	}
+	c.anchorAsserts(key, bind)
+	nk := normAnchor(key)
+	for _, a := range c.fc.Assumes {
+		if normAnchor(a.Anchor) != nk {
+			continue
+		}
+		c.anchorsHit["assume:"+a.Anchor] = true
+		env := c.pointEnv("assume at " + a.Anchor)
+		bind(env)
+		c.assume(c.trClause(env, a.Clause))
+		c.used["ASSUMED in contract of "+shortName(c.fn.String())+" ("+a.Anchor+"): "+a.Text] = true
+	}
+}
+
 func (c *FnCtx) callAnchor(site ssa.Instruction, name string, ord int, args []Val) {
 	if name == "" {
 		return
@@ -252,6 +283,18 @@ func (c *FnCtx) frameCovers(env *Env, m Clause, l location, addr string) (res st
 				}
 				return "false"
 			case "ghost":
+				return "false"
+			case "pkgheap":
+				st, ok := call.Args[0].(*EStr)
+				if !ok {
+					env.fail("pkgheap needs a string literal")
+				}
+				if l.arr != "" && heapInPkg(l.arr, st.Val) {
+					return "true"
+				}
+				if l.cellTy != nil && strings.HasPrefix(typeName(l.cellTy), st.Val+".") {
+					return "true"
+				}
 				return "false"
 			}
 		}
